@@ -176,9 +176,6 @@ theorem scanFold_get (i c : Nat) : ∀ (nss : List (List Nat)) (j : Nat) (info :
 
 /-! ### the layout family -/
 
-/-- brackets (by the index of the bracket END among v_0..v_k) after which the repeat sign stands: after every
-bracket but the last; after the only one when there is one -/
-def repIdx (k : Nat) : List Nat := if k = 1 then [1] else (List.range (k - 1)).map (· + 1)
 
 theorem repIdx_mem (k j : Nat) : j ∈ repIdx k ↔ 1 ≤ j ∧ (j < k ∨ (k = 1 ∧ j = 1)) := by
   unfold repIdx
@@ -196,13 +193,6 @@ theorem repIdx_mem (k j : Nat) : j ∈ repIdx k ↔ 1 ≤ j ∧ (j < k ∨ (k = 
       · omega
       · show j - 1 + 1 = j; omega
 
-/-- boundary times `ts` = [lead-in start] ++ [a] ++ [v_0 .. v_k] ++ [end of the rest]; section `[a, v_0)`, bracket j
-`[v_j, v_{j+1})` carrying the numbers `numsOf asg j`; a repeat `(a, v_j)` for every `j ∈ repIdx k` -/
-def mvLayout (pre : Bool) (k : Nat) (post : Bool) (asg : List Nat) (ts : List Int) : Layout :=
-  { first := ts.getD 0 0, last := ts.getD (vLen pre k post) 0,
-    repeats := (repIdx k).map fun j => (ts.getD (vBody pre) 0, ts.getD (vBody pre + 1 + j) 0),
-    endings := (List.range k).map fun j =>
-      (ts.getD (vBody pre + 1 + j) 0, ts.getD (vBody pre + 2 + j) 0, numsOf asg j) }
 
 theorem lastSome_map {α β γ : Type} (f : β → Option γ) (g : α → β) (l : List α) :
     lastSome f (l.map g) = lastSome (fun a => f (g a)) l := by
@@ -1053,19 +1043,37 @@ theorem foldr_mix (F : Tag × Dest → Option (List (Nat × Nat)) → Option (Li
     | cons d ds ih => simp only [List.map_cons, List.foldr_cons, ih, fp, hFp]
   | cons q qs ih => simp only [List.map_cons, List.cons_append, List.foldr_cons, ih, fv, hFv]
 
+theorem nav1Of_append (a b : List (Tag × Dest)) : nav1Of (a ++ b) = nav1Of a ++ nav1Of b := by
+  unfold nav1Of; rw [List.filterMap_append]
+
+theorem nav1Of_fv (P : List (Nat × Nat)) : nav1Of (P.map fv) = [] := by
+  induction P with
+  | nil => rfl
+  | cons q qs ih =>
+    have : nav1Of (fv q :: qs.map fv) = nav1Of (qs.map fv) := rfl
+    rw [List.map_cons, this, ih]
+
+theorem nav1Of_fp (l : List Dest) : nav1Of (l.map fp) = [] := by
+  induction l with
+  | nil => rfl
+  | cons d ds ih =>
+    have : nav1Of (fp d :: ds.map fp) = nav1Of (ds.map fp) := rfl
+    rw [List.map_cons, this, ih]
+
 /-- volta destinations and plain destinations: the sorted volta destinations, then the plain segment destinations
 (ascending, without those that are volta destinations), then END if it was among them -/
 theorem cleanTo_mix (P : List (Nat × Nat)) (l : List Dest) :
-    cleanTo (P.map fv ++ l.map fp) =
+    cleanToBase (P.map fv ++ l.map fp) =
       some (((P.foldl (fun acc x => insVolta x acc) []).map fun x => Dest.seg x.2) ++
         (((l.foldl (fun acc d => match d with
             | Dest.seg j => insSorted j acc
             | Dest.fin => acc) []).map Dest.seg).filter
           fun d => !((P.foldl (fun acc x => insVolta x acc) []).map fun x => Dest.seg x.2).contains d) ++
         (if l.contains Dest.fin then [Dest.fin] else []), []) := by
-  unfold cleanTo
+  unfold cleanToBase
   simp only
-  rw [filterMap_mix_some _ (fun _ _ => rfl) (fun _ => rfl), filterMap_mix_none _ (fun _ _ => rfl) (fun _ => rfl),
+  have hn : nav1Of (P.map fv ++ l.map fp) = [] := by rw [nav1Of_append, nav1Of_fv, nav1Of_fp]; rfl
+  rw [hn, filterMap_mix_some _ (fun _ _ => rfl) (fun _ => rfl),
     filterMap_mix_none _ (fun _ _ => rfl) (fun _ => rfl), foldr_mix _ (fun _ _ _ => rfl) (fun _ _ => rfl)]
   simp only [Option.bind_eq_bind, Option.bind_some, List.contains_nil, Bool.or_false, List.nil_append]
   cases l.contains Dest.fin <;> first | rfl | (simp; rfl)
@@ -1086,13 +1094,27 @@ variable (hs : StrictSorted ts) (hlen : ts.length = vLen pre k post + 1) (hk : 1
 variable (hasg : ∀ x ∈ asg, x < k) (hN9 : asg.length ≤ 9)
 variable (hlast : asg.getLast? = some (k - 1)) (hsurj : ∀ j, j < k → j ∈ asg) (ha : 0 ≤ ts.getD (vBody pre) 0)
 
+theorem mv_noNav (x : Nat) : nav1Of (mvFinal pre k post asg ts x).to = [] := by
+  unfold mvFinal
+  split
+  · rfl
+  · split
+    · exact nav1Of_fv _
+    · split
+      · unfold mvBracketRaw
+        have e1 : List.replicate (mBack asg (x - vBody pre - 1)) (Tag.volta 10, Dest.seg (vBody pre)) =
+            (List.replicate (mBack asg (x - vBody pre - 1)) (10, vBody pre)).map fv := by simp [fv]
+        rw [nav1Of_append, nav1Of_append, e1, nav1Of_fv]
+        split <;> split <;> rfl
+      · rfl
+
 include hlast hk hasg in
 theorem mv_cleanTo (x : Nat) (hx : x < vLen pre k post) :
-    cleanTo (mvFinal pre k post asg ts x).to = some (mTo pre k post asg x, []) := by
+    cleanToBase (mvFinal pre k post asg ts x).to = some (mTo pre k post asg x, []) := by
   have hv : vLen pre k post = vBody pre + 1 + k + (if post then 1 else 0) := rfl
   unfold mvFinal mTo
   by_cases h1 : x < vBody pre
-  · simp [h1, cleanTo, insSorted, insVolta]
+  · simp [h1, cleanToBase, nav1Of, insSorted, insVolta]
   · by_cases h2 : x = vBody pre
     · subst h2
       have hirr : ¬ vBody pre < vBody pre := Nat.lt_irrefl _
@@ -1133,7 +1155,7 @@ theorem mv_cleanTo (x : Nat) (hx : x < vLen pre k post) :
             congr 1
             cases post <;> simp at hv <;> omega
           simp [hL, hE]
-      · simp [h1, h2, h3, cleanTo, insSorted, insVolta]
+      · simp [h1, h2, h3, cleanToBase, nav1Of, insSorted, insVolta]
 
 include hs hlen hk hk10 hasg hN9 hlast hsurj ha in
 /-- `add_segments` on a repeat with k brackets carrying the numbers 1..N: the table `mvGraph` -/
@@ -1190,8 +1212,11 @@ theorem mv_mkSegments :
       · simp [h] at hinf
     simp only [hi, if_true, Option.some.injEq, mvCell] at hinf
     subst hinf
+    have hnav : nav1Of (mvFinal pre k post asg ts i).to = [] := mv_noNav pre k post asg ts i
     refine ⟨ts.getD i 0, ts.getD (i + 1) 0, mTo pre k post asg i, [], getD_get ts i (by omega),
-      getD_get ts (i + 1) (by omega), mv_cleanTo pre k post asg ts hk hasg hlast i hi, ?_⟩
+      getD_get ts (i + 1) (by omega), ?_, ?_⟩
+    · rw [Nat.zero_add, cleanTo_noNav _ _ hnav]
+      exact mv_cleanTo pre k post asg ts hk hasg hlast i hi
     rw [mvGraph_get pre k post asg _ _ i hi]
     have hty : (mvFinal pre k post asg ts i).ty = tyAt ts i := by
       unfold mvFinal
